@@ -10,8 +10,8 @@ RULE = (
     "uid=True must return a fresh name and leave all previous nodes and edges alone. non-trivial = >=5 calls with both outcomes; distinct = canonical history"
 )
 BUDGET = {
-    "quick": {"workers": 16, "cases": 150, "secs": 45, "min_cases": 1200},
-    "thorough": {"workers": 16, "rounds": 4, "cases": 600, "secs": 240, "min_cases": 12000},
+    "quick": {"workers": 16, "cases": 1200, "secs": 60, "min_cases": 9600},
+    "thorough": {"workers": 16, "rounds": 4, "cases": 3500, "secs": 420, "min_cases": 112000},
 }
 ANCHORS = ["circuit:Circuit.add", "circuit:Circuit.connect", "circuit:Circuit.uid", "circuit:Circuit.add_blackbox", "circuit:Circuit.add_subcircuit", "circuit:Circuit.fill_blackbox", "circuit:Circuit.remove", "circuit:Circuit.disconnect", "circuit:Circuit.set_output"]
 
@@ -44,6 +44,12 @@ def gen(rng, ctx):
     existing = [n for n, _, _ in start["nodes"]] if start else []
     n_ops = rng.randint(5, 40 if big else 28)
     ops = []
+    if rng.random() < 0.06:
+        # "uid storm": the same name requested many times, to walk uid()'s suffix sequence past 10
+        base = rng.choice(["a", "g", "x_y"])
+        for j in range(rng.randint(12, 16)):
+            ops.append({"op": "add", "n": base, "type": rng.choice(["buf", "and", "input"]), "uid": True, "output": False})
+        return {"start": start, "children": children, "ops": ops, "storm": True}
     live = list(existing)
     insts = list(start["bbs"]) if start else []
 
@@ -168,6 +174,8 @@ def check(case, ctx):
         raise RuntimeError(f"generator produced an ill-formed start circuit: {p0}")
     n_ok = n_rej = 0
     ctx.count("start:generated" if case["start"] else "start:empty")
+    if case.get("storm"):
+        ctx.count("uid_storm")
     for step, op in enumerate(case["ops"]):
         k = op["op"]
         b_types, b_edges, b_outs, b_bbs = types, edges, outs, bbs
@@ -257,7 +265,7 @@ def check(case, ctx):
                 return
             if r != op["n"]:
                 ctx.count("uid_renamed")
-    if len(case["ops"]) < 5 or not n_ok or not n_rej:
+    if (len(case["ops"]) < 5 or not n_ok or not n_rej) and not case.get("storm"):
         ctx.trivial()
     ctx.count("states_observed", len(case["ops"]))
 
@@ -268,7 +276,7 @@ def gates(counters, table, tier):
         for o in ("ok", "rejected"):
             if counters.get(f"{k}:{o}", 0) < 5:
                 out.append(f"{k} never {o} ({counters.get(f'{k}:{o}', 0)})")
-    for k in ("disconnect:ok", "remove:ok", "set_output:ok", "uid_renamed"):
+    for k in ("disconnect:ok", "remove:ok", "set_output:ok", "uid_renamed", "uid_storm"):
         if counters.get(k, 0) < 5:
             out.append(f"{k} seen {counters.get(k, 0)} times")
     if counters.get("calls", 0) < 10000 and tier == "quick":
